@@ -89,8 +89,19 @@ func (c *reconnectClient) Connect(ctx context.Context, clientID string, opts ...
 				c.RetryClient.SetClient(ctx, baseCli)
 
 				ctxConnect, cancelConnect := c.options.timeoutContext(ctx)
+				// Abort the handshake if Disconnect is requested while waiting for CONNACK.
+				connectReturned := make(chan struct{})
+				go func() {
+					select {
+					case <-c.disconnected:
+						cancelConnect()
+					case <-connectReturned:
+					}
+				}()
 
-				if sessionPresent, err := c.RetryClient.Connect(ctxConnect, clientID, opts...); err == nil {
+				sessionPresent, err := c.RetryClient.Connect(ctxConnect, clientID, opts...)
+				close(connectReturned)
+				if err == nil {
 					cancelConnect()
 
 					reconnWait = c.options.ReconnectWaitBase // Reset reconnect wait.
@@ -216,7 +227,7 @@ type ReconnectOptions struct {
 
 func (c *ReconnectOptions) timeoutContext(ctx context.Context) (context.Context, func()) {
 	if c.Timeout == 0 {
-		return ctx, func() {}
+		return context.WithCancel(ctx)
 	}
 	return context.WithTimeout(ctx, c.Timeout)
 }
